@@ -444,8 +444,9 @@ def run_check(prop, tier, seed, only=None, nproc=None, verbose=True):
   # ---- verdict
   required_bad = [
       r for r in results
-      if r['status'] in ('error', 'inconclusive') or
-      (r['status'] == 'timeout' and jobs[r['index']]['required'])
+      if r['status'] == 'error' or
+      (r['status'] in ('timeout', 'inconclusive') and
+       jobs[r['index']]['required'])
   ]
   witness_errors = [e for r in results for e in r.get('witness_errors', [])]
   vacuous = []
